@@ -26,7 +26,7 @@ RULE = ("packages with 1-3 implementation modules, 1-9 definitions, each exporte
         "(5 import forms x 2 __all__ spellings x package/sibling; a renamed export may clash with an unrelated class of the defining module), 1-2 consumer modules with 1-4 uses each (7 ways of reaching x 5 ways "
         "of using), x every reachable processing order (thorough: exhaustive when <= 120, else 64 evenly spaced; quick: exhaustive when <= 24, else 32). Non-trivial when >=1 object is re-exported and >=1 "
         "consumer reaches it through the defining module or an outdated name; distinct by hash of the abstract project. Plus an exhaustive family of 60 packages whose __init__ defines an object "
-        "that a module of the package re-exports, the module's name beginning with the object's name or not (p.conn by p.connection), x every order.")
+        "that a module of the package re-exports, the module's name beginning with the object's name or not (p.conn by p.connection), x every order; and of 16 packages that re-export an object imported through a shim module, renamed or not at either step, x every order.")
 ASSUMPTIONS = [
     "at most one re-exporter per object and the defining module does not list the object in its own __all__ (the statement's precondition)",
     "'leads to' = resolveName / Class.baseobjects / the href produced by the annotation linker or by link_xref is that object (its url)",
@@ -275,14 +275,62 @@ def check_prefix_case(case: Dict[str, Any]) -> Tuple[List[Tuple[str, str]], int]
     return [], nb
 
 
+def hop_family_cases() -> List[Dict[str, Any]]:
+    """The re-exporter imports the object from a module that only imports it itself (a compatibility shim), under the same or another
+    name, and exports it under the same or another name: exhaustive small family x every processing order."""
+    return [{'kind': 'hop', 'shim_as': sa, 'export_as': ea, 'okind': k, 'form': f}
+            for sa in ('Engine', 'Eng') for ea in ('same', 'Motor') for k in ('class', 'func') for f in ('from ._compat import %s', 'from p._compat import %s')]
+
+
+def check_hop_case(case: Dict[str, Any]) -> Tuple[List[Tuple[str, str]], int]:
+    Q = '"' * 3
+    sa, ea, kind = case['shim_as'], case['export_as'], case['okind']
+    exported = sa if ea == 'same' else ea
+    core = ('class Engine:\n    ' + Q + 'ID:1' + Q + '\n    def start(self):\n        ' + Q + 'ID:1.start' + Q + '\n' if kind == 'class'
+            else 'def Engine():\n    ' + Q + 'ID:1' + Q + '\n')
+    shim = 'from ._core import Engine' + ('' if sa == 'Engine' else ' as ' + sa) + '\n'
+    imp = (case['form'] % sa) + ('' if exported == sa else ' as ' + exported)
+    files = {'p/__init__.py': imp + '\n__all__ = [%r]\n' % exported, 'p/_core.py': core, 'p/_compat.py': shim,
+             'p/user.py': 'from p import %s as new\nimport p\n' % exported}
+    mods = files_to_mods(files)
+    want = 'p.' + exported
+    desc = '\n'.join('--- %s\n%s' % (k, v) for k, v in sorted(files.items()))
+    nb = 0
+    for od in orders_for(mods, MAX_ORDERS):
+        names = [(mods[i][1] + '.' if mods[i][1] else '') + mods[i][0] for i in od]
+        s = build_in_order(mods, od)
+        nb += 1
+        o = s.allobjects.get(want)
+        holders = [k for k, x in s.allobjects.items() if x.docstring == 'ID:1']
+        if o is None or o.docstring != 'ID:1' or holders != [want]:
+            return [('documented-at:through-a-shim', '%s\norder %s: %s is listed in __all__ of p (imported through p._compat) but the object is registered as %s' % (desc, names, exported, holders))], nb
+        if kind == 'class' and (want + '.start') not in s.allobjects:
+            return [('members-not-moved', '%s\norder %s: %s.start is not registered' % (desc, names, want))], nb
+        u = s.allobjects['p.user']
+        if u.resolveName('new') is not o or u.expandName('p._core.Engine') != want:
+            return [('consumer-broken', '%s\norder %s: p.user: `new` resolves to %r, the old name p._core.Engine expands to %r' % (desc, names, u.resolveName('new'), u.expandName('p._core.Engine')))], nb
+    return [], nb
+
+
 def plan(tier: str, seed: int, scale: float = 1.0) -> List[Any]:
     n = ncpu()
     total = int((800 if tier == "quick" else 6000) * scale)
-    return [{'n': max(1, total // n), 'seed': seed * 1000 + i} for i in range(n)] + [{'kind': 'prefix'}]
+    return [{'n': max(1, total // n), 'seed': seed * 1000 + i} for i in range(n)] + [{'kind': 'prefix'}, {'kind': 'hop'}]
 
 
 def work(item: Dict[str, Any]) -> Acc:
     acc = Acc()
+    if item.get('kind') == 'hop':
+        for i, c in enumerate(hop_family_cases()):
+            d, built = check_hop_case(c)
+            acc.case(key=('hop', i), nontrivial=True, sample=c if i % 8 == 0 else None, classes=['re-export-through-a-shim'])
+            acc.notes['systems_built'] = acc.notes.get('systems_built', 0) + built
+            try:
+                judge(ID, acc, c, d)
+            except Violation as v:
+                acc.violations.append(v.as_dict())
+                break
+        return acc
     if item.get('kind') == 'prefix':
         ds, built, ncases = check_prefix_family()
         bad = {id(c): True for _s, _m, c in ds}
@@ -311,4 +359,6 @@ def work(item: Dict[str, Any]) -> Acc:
 def replay(case: Dict[str, Any]) -> List[Tuple[str, str]]:
     if case.get('kind') == 'prefix':
         return check_prefix_case(case)[0]
+    if case.get('kind') == 'hop':
+        return check_hop_case(case)[0]
     return check_project(case)[0]
